@@ -1,4 +1,4 @@
 From Coq Require Import Extraction ExtrOcamlBasic NArith.
-From DV Require Import Base.Outcome Base.PName C01.Gen C01.Model.
+From DV Require Import Base.Outcome Base.PName C01.Gen C01.Model C01.Model2.
 Extraction Language OCaml.
-Extraction "../build/ml/C01/model.ml" c01_pname c01_skip c01_islice read_all.
+Extraction "../build/ml/C01/model.ml" c01_pname c01_skip c01_islice read_all c01_pops read_ops c01_xfr c01_isans.
